@@ -1,7 +1,7 @@
 /-
 C09 — evaluations on separate VMs are safe to run concurrently.
 
-Four executable models, core Lean only.
+Six executable models, core Lean only.
 
 1. A trace model of threads acquiring/releasing mutexes (exclusive or shared mode, as Go's
    `sync.Mutex` / `sync.RWMutex`) and accessing shared locations.  An access event carries
@@ -25,6 +25,15 @@ Four executable models, core Lean only.
    acquire, write through, observe and release under an allocation policy (`fresh` = the code as
    it is; `pooled`, `cached` = contrast variants); reviewed twins of the regenerated tables
    `machineSources`, `registryReturns`, `registryTypes`.
+
+5. Contexts shared by evaluations (§5): evaluations start, make trips round the eval loop and finish
+   under contexts that end; `perRun` = the code as it is (one watcher goroutine per run), `registry` =
+   the contrast (a process-wide table of watches released by the first run that ends); reviewed
+   twin of `haltWrites`.
+
+6. Configurations (§6): `DefaultGlobals` calls, in-place edits of standard-library modules by
+   configuration options and attribute reads, as the resource model of §4 once per module attribute;
+   reviewed twin of `libVars`.
 -/
 namespace Risor.C09
 
@@ -394,6 +403,7 @@ inductive Policy where
 inductive REv where
   | acq (t : Nat)
   | wr (t : Nat) (v : Nat)
+  | wrUnless (t : Nat) (bad v : Nat)   -- write `v` unless the resource holds `bad` (a refused edit: §6)
   | rd (t : Nat)
   | rel (t : Nat)
   deriving DecidableEq, Repr
@@ -401,6 +411,7 @@ inductive REv where
 def REv.agent : REv → Nat
   | .acq t => t
   | .wr t _ => t
+  | .wrUnless t _ _ => t
   | .rd t => t
   | .rel t => t
 
@@ -430,6 +441,10 @@ def rstep (p : Policy) (s : RState) : REv → RState
   | .wr t v =>
     match s.held t with
     | some r => { s with cells := s.cells.set r v }
+    | none => s
+  | .wrUnless t bad v =>
+    match s.held t with
+    | some r => if s.cells.getD r 0 = bad then s else { s with cells := s.cells.set r v }
     | none => s
   | .rd t =>
     match s.held t with
@@ -632,5 +647,154 @@ def reviewedVars : List (String × String) := [
 def reviewedUnlockedWriters : List (String × String × List String) := [
   ("errz.typeErrorsAreFatal", "errz.SetTypeErrorsAreFatal", []),
   ("os.globalScriptargs", "os.SetScriptArgs", ["cmd"])]
+
+/-! ## 5. Contexts: several evaluations under ONE context
+
+`vm.start` makes the machine's `halt` flag follow the context of the run: the code as it is parks one
+goroutine PER RUN on `ctx.Done()` (`<-doneChan; atomic.StoreInt32(&vm.halt, 1)`).  A request context
+is routinely shared: two scripts of one request, a worker pool under one deadline.  The property
+demands that cancelling context `c` stops every evaluation running under `c` — exactly as it stops
+that evaluation when it runs under `c` alone — and nobody else, whatever the other evaluations
+under `c` do (start, finish, start again) in the meantime.
+
+Machines are per evaluation (§4a, `fresh`), so the flag is indexed by the evaluation.  The contrast
+policy `registry` is a package-level table context ↦ watched flags with ONE callback per context that
+is torn down when a run under the context ends. -/
+
+inductive WatchPolicy where
+  | perRun     -- the code as it is: each run has its own watcher goroutine
+  | registry   -- contrast: one callback per context in a process-wide table, released by the first `stop()`
+  deriving DecidableEq, Repr
+
+inductive CEv where
+  | start (e c : Nat)   -- evaluation `e` starts a run under context `c`
+  | instr (e : Nat)     -- one trip round `e`'s eval loop: load `halt`, then dispatch
+  | finish (e : Nat)    -- `e`'s run returns (`stop()`)
+  | cancel (c : Nat)    -- context `c` is cancelled / its deadline passes
+  deriving DecidableEq, Repr
+
+structure CState where
+  ctxOf : Nat → Option Nat     -- the context `e`'s current (or last) run was started under
+  done : Nat → Bool            -- context `c` is done
+  halt : Nat → Nat             -- the halt flag of `e`'s machine
+  log : Nat → List Nat         -- what `e`'s eval loop has loaded so far
+  watch : Nat → List Nat       -- `registry` only: context ↦ evaluations whose flag its callback sets
+
+def CState.empty : CState :=
+  { ctxOf := fun _ => none, done := fun _ => false, halt := fun _ => 0, log := fun _ => [], watch := fun _ => [] }
+
+def cstep : WatchPolicy → CState → CEv → CState
+  | .perRun, s, .start e c =>
+    { s with ctxOf := fun k => if k = e then some c else s.ctxOf k,
+             halt := fun k => if k = e then (if s.done c then 1 else 0) else s.halt k }
+  | .perRun, s, .instr e => { s with log := fun k => if k = e then s.log e ++ [s.halt e] else s.log k }
+  | .perRun, s, .finish _ => s      -- the watcher stays parked: it refers to this run's machine only
+  | .perRun, s, .cancel c =>
+    { s with done := fun k => if k = c then true else s.done k,
+             halt := fun k => if s.ctxOf k = some c then 1 else s.halt k }
+  | .registry, s, .start e c =>
+    { s with ctxOf := fun k => if k = e then some c else s.ctxOf k,
+             halt := fun k => if k = e then (if s.done c then 1 else 0) else s.halt k,
+             watch := fun k => if k = c then (if s.done c then s.watch c else s.watch c ++ [e]) else s.watch k }
+  | .registry, s, .instr e => { s with log := fun k => if k = e then s.log e ++ [s.halt e] else s.log k }
+  | .registry, s, .finish e =>
+    match s.ctxOf e with
+    | some c => { s with watch := fun k => if k = c then [] else s.watch k }   -- `unwatchContext`: the whole entry
+    | none => s
+  | .registry, s, .cancel c =>
+    { s with done := fun k => if k = c then true else s.done k,
+             halt := fun k => if (s.watch c).contains k then 1 else s.halt k,
+             watch := fun k => if k = c then [] else s.watch k }
+
+def crun (p : WatchPolicy) (s : CState) : List CEv → CState
+  | [] => s
+  | ev :: evs => crun p (cstep p s ev) evs
+
+/-- does the event concern evaluation `e` in the schedule `evs`: its own events, and the end of
+    every context it is ever started under in `evs` -/
+def CEv.concerns (evs : List CEv) (e : Nat) : CEv → Bool
+  | .start e' _ => e' == e
+  | .instr e' => e' == e
+  | .finish e' => e' == e
+  | .cancel c => evs.contains (.start e c)
+
+def ctxOutcome (p : WatchPolicy) (evs : List CEv) (e : Nat) : MOutcome :=
+  let log := (crun p CState.empty evs).log e
+  { loads := log.length, halted := haltedAt log }
+
+/-- … and in the schedule that contains only what concerns `e`: `e` under its context(s), alone -/
+def ctxOutcomeAlone (p : WatchPolicy) (evs : List CEv) (e : Nat) : MOutcome :=
+  ctxOutcome p (evs.filter (CEv.concerns evs e)) e
+
+/-- reviewed twin of `Generated.C09.haltWrites`: every place in package vm that writes the `halt`
+    field of a machine or lets its address out of an atomic load/store: (function, how, what).
+    `start` clears it and starts the goroutine literal that stores 1 after `<-doneChan`;
+    `resetForNewCode` clears it.  Nothing else holds a reference to the flag. -/
+def haltWriteRows : List (String × String × String) := [
+  ("vm.VirtualMachine.resetForNewCode", "assign", "0"),
+  ("vm.VirtualMachine.start", "assign", "0"),
+  ("vm.VirtualMachine.start", "go-literal:atomic.StoreInt32", "1")
+]
+
+/-- every writer is a method of the machine itself, the only store of 1 sits in a goroutine started by
+    `start`, and the flag's address is handed to nothing but `sync/atomic` -/
+def haltRowOK (r : String × String × String) : Bool :=
+  "vm.VirtualMachine.".toList.isPrefixOf r.1.toList && (r.2.1 == "assign" && r.2.2 == "0"
+    || r.1 == "vm.VirtualMachine.start" && r.2.1 == "go-literal:atomic.StoreInt32")
+
+/-! ## 6. Configurations: what an evaluation's options do to the standard library it is given
+
+`risor.NewConfig` calls `DefaultGlobals()` (`build`), which constructs every module of the standard
+library; `WithoutGlobal("m.a")` then removes attribute `a` from the module the Config holds
+(`deny`: `Module.Override(a, nil)` — an IN-PLACE edit of the module object),
+`WithGlobalOverride("m.a", v)` replaces it (`override`: refused when the attribute is not there), and
+the script reads `m.a` (`use`).  Attributes are independent cells, so the library is the resource
+model of §4 once per cell `(m, a)`: content 0 = as built, 1 = removed, `v + 2` = replaced by `v`.
+`fresh` = the code as it is (a library per `DefaultGlobals` call); `cached` = the contrast (module
+objects built once and handed to every Config). -/
+
+inductive GEv where
+  | build (e : Nat)
+  | deny (e m a : Nat)
+  | override (e m a v : Nat)
+  | use (e m a : Nat)
+  deriving DecidableEq, Repr
+
+def GEv.agent : GEv → Nat
+  | .build e => e
+  | .deny e _ _ => e
+  | .override e _ _ _ => e
+  | .use e _ _ => e
+
+/-- an in-place edit of a module -/
+def GEv.isEdit : GEv → Bool
+  | .deny .. => true
+  | .override .. => true
+  | _ => false
+
+/-- the event as seen by the cell `(m, a)` -/
+def GEv.toR (m a : Nat) : GEv → Option REv
+  | .build e => some (.acq e)
+  | .deny e m' a' => if m' = m ∧ a' = a then some (.wr e 1) else none
+  | .override e m' a' v => if m' = m ∧ a' = a then some (.wrUnless e 1 (v + 2)) else none
+  | .use e m' a' => if m' = m ∧ a' = a then some (.rd e) else none
+
+/-- what evaluation `e` finds in attribute `a` of module `m`, use after use -/
+def attrSeen (p : Policy) (evs : List GEv) (e m a : Nat) : List Nat :=
+  observed p (evs.filterMap (GEv.toR m a)) e
+
+/-- … when only its own configuration and uses happen -/
+def attrSeenAlone (p : Policy) (evs : List GEv) (e m a : Nat) : List Nat :=
+  attrSeen p (evs.filter fun ev => ev.agent == e) e m a
+
+/-- reviewed twin of `Generated.C09.libVars`: the package-level variables of the root package and of
+    the module packages `DefaultGlobals` builds the standard library from, with the functions that
+    write them.  There is ONE, a literal map of option names that is only read: the root package
+    and the standard-library modules have no place to keep an object between two calls, so what
+    `DefaultGlobals` hands out is constructed by that call (the state of `object` and `builtins`
+    is in the inventory of §2). -/
+def libVarRows : List (String × String × List String) := [
+  ("modules/exec.allowedKeys", "map[string]bool", [])
+]
 
 end Risor.C09
